@@ -196,7 +196,7 @@ fn main() {
                 };
                 scen::graph_scenario(i, &mut srng, &o, family)
             }
-            "marks" | "marksinv" | "isomarks" | "textenc" | "grapheme" | "cursor" | "cursortext" => {
+            "marks" | "marksinv" | "isomarks" | "textenc" | "textconf" | "grapheme" | "cursor" | "cursortext" => {
                 use serde_json::json;
                 amverif::proj::set_rich(true);
                 let mut prof = Profile::all();
@@ -205,6 +205,7 @@ fn main() {
                 prof.nkeys = 1;
                 let text = family != "cursor";
                 let enc = match family {
+                    "textconf" => [automerge::TextEncoding::Utf16CodeUnit, automerge::TextEncoding::Utf8CodeUnit][i % 2],
                     "textenc" => [automerge::TextEncoding::Utf16CodeUnit, automerge::TextEncoding::Utf8CodeUnit,
                                   automerge::TextEncoding::GraphemeCluster, automerge::TextEncoding::UnicodeCodePoint][i % 4],
                     "grapheme" => automerge::TextEncoding::GraphemeCluster,
@@ -221,7 +222,8 @@ fn main() {
                         prof.invalid_pct = 25;
                     }
                     prof.combining = family == "grapheme";
-                    prof.max_len = if family.contains("marks") { 8 } else { 10 };
+                    prof.text_puts = family == "textenc" || family == "cursortext" || family == "textconf";
+                    prof.max_len = if family.contains("marks") { 8 } else if family == "textconf" { 5 } else { 10 };
                     let toks: Vec<&str> = match family {
                         "marks" | "marksinv" | "isomarks" => vec!["a", "b", "c", "d"],
                         "grapheme" => vec!["a", "e", "cacute", "woman"],
